@@ -552,6 +552,182 @@ def generate_xpath(src: Path) -> str:
     return "\n".join(out)
 
 
+# ------------------------------------------------------------------------------------------------ _eq_fn (C02, optional)
+
+HEADER_EQ = """/- GENERATED by harness/py2lean_k.py from `_eq_fn` (src/pyoak/node.py) on every run of `./check C02`.
+   Do not edit: Props/GenBridgeEq.lean proves the hand-written model `eqImpl` equal to exactly this definition (an OPTIONAL
+   obligation, see harness/kernels_tie.py). -/
+namespace PyOak.GenK
+
+/-- `for a, b in zip(xs, ys, strict=True): if P(a, b): <exit>`: `ok true` = some pair satisfied P (the loop exits there,
+before a later length mismatch could be noticed), `ok false` = both streams ended together, `error` = the ValueError of
+`zip(strict=True)` when one stream ends before the other -/
+def zipStrictFind {A : Type} (P : A → A → Bool) : List A → List A → Except Unit Bool
+  | [], [] => .ok false
+  | x :: xs, y :: ys => if P x y then .ok true else zipStrictFind P xs ys
+  | _, _ => .error ()
+"""
+
+
+class EqFn:
+    """translation of `_eq_fn(self, other)`: the result is an `Except Unit Bool` term over the abstract operations
+    same_class / content_id / origin / dfs (a list of nodes; `item.node` of a traversal item is the node itself)"""
+
+    def __init__(self, fn: ast.FunctionDef):
+        self.fn = fn
+        ps = [a.arg for a in fn.args.args]
+        if len(ps) != 2:
+            raise Unsupported("_eq_fn", "expects (self, other)")
+        self.nodes = set(ps)          # names bound to nodes
+        self.items: set[str] = set()  # names bound to traversal items (loop variables)
+
+    def bad(self, node, why=""):
+        raise Unsupported("_eq_fn", f"{why or 'construct'}: {ast.unparse(node)}"[:200])
+
+    def klass(self, e):
+        """`x.__class__` / `type(x)` -> x"""
+        if isinstance(e, ast.Attribute) and e.attr == "__class__" and isinstance(e.value, ast.Name) and e.value.id in self.nodes:
+            return e.value.id
+        if isinstance(e, ast.Call) and isinstance(e.func, ast.Name) and e.func.id == "type" and len(e.args) == 1 \
+                and isinstance(e.args[0], ast.Name) and e.args[0].id in self.nodes:
+            return e.args[0].id
+        return None
+
+    def val(self, e):
+        """-> (term, kind) for content_id / origin values"""
+        if isinstance(e, ast.Attribute) and e.attr in ("content_id", "origin"):
+            b = e.value
+            if isinstance(b, ast.Name) and b.id in self.nodes:
+                return f"({e.attr} {b.id})", e.attr
+            if isinstance(b, ast.Attribute) and b.attr == "node" and isinstance(b.value, ast.Name) and b.value.id in self.items:
+                return f"({e.attr} {b.value.id})", e.attr
+            if isinstance(b, ast.Name) and b.id in self.items:
+                self.bad(e, "attribute of a traversal item (expected item.node.<attr>)")
+        self.bad(e, "value")
+
+    def stream(self, e):
+        if isinstance(e, ast.Call) and isinstance(e.func, ast.Attribute) and e.func.attr == "dfs" and not e.args and not e.keywords \
+                and isinstance(e.func.value, ast.Name) and e.func.value.id in self.nodes:
+            return f"(dfs {e.func.value.id})"
+        self.bad(e, "stream (expected <node>.dfs())")
+
+    def zipcall(self, e):
+        """zip(A, B, strict=True) -> (A, B)"""
+        if isinstance(e, ast.Call) and isinstance(e.func, ast.Name) and e.func.id == "zip" and len(e.args) == 2 \
+                and len(e.keywords) == 1 and e.keywords[0].arg == "strict" and isinstance(e.keywords[0].value, ast.Constant) \
+                and e.keywords[0].value.value is True:
+            return self.stream(e.args[0]), self.stream(e.args[1])
+        self.bad(e, "expected zip(<a>.dfs(), <b>.dfs(), strict=True)")
+
+    def pure(self, e) -> str:
+        """a Bool term without effects (no zip)"""
+        if isinstance(e, ast.Constant) and isinstance(e.value, bool):
+            return "true" if e.value else "false"
+        if isinstance(e, ast.UnaryOp) and isinstance(e.op, ast.Not):
+            return f"(!{self.pure(e.operand)})"
+        if isinstance(e, ast.BoolOp):
+            op = " && " if isinstance(e.op, ast.And) else " || "
+            return "(" + op.join(self.pure(v) for v in e.values) + ")"
+        if isinstance(e, ast.Compare) and len(e.ops) == 1:
+            l, r, op = e.left, e.comparators[0], e.ops[0]
+            kl, kr = self.klass(l), self.klass(r)
+            if kl is not None and kr is not None and isinstance(op, (ast.Is, ast.IsNot, ast.Eq, ast.NotEq)):
+                t = f"(same_class {kl} {kr})"
+                return t if isinstance(op, (ast.Is, ast.Eq)) else f"(!{t})"
+            if isinstance(op, (ast.Eq, ast.NotEq)):
+                a, ka = self.val(l)
+                b, kb = self.val(r)
+                if ka != kb:
+                    self.bad(e, "comparison of a content_id with an origin")
+                t = f"({a} == {b})"
+                return t if isinstance(op, ast.Eq) else f"(!{t})"
+        self.bad(e, "condition")
+
+    def pair_pred(self, target, cond) -> str:
+        if not (isinstance(target, ast.Tuple) and len(target.elts) == 2 and all(isinstance(x, ast.Name) for x in target.elts)):
+            self.bad(target, "loop target (expected two names)")
+        a, b = target.elts[0].id, target.elts[1].id
+        self.items |= {a, b}
+        t = self.pure(cond)
+        self.items -= {a, b}
+        return f"(fun {a} {b} => {t})"
+
+    def result(self, e) -> str:
+        """an expression in return position: may be `not any(.. for a, b in zip(..))` / `all(..)` / pure"""
+        neg = False
+        x = e
+        if isinstance(x, ast.UnaryOp) and isinstance(x.op, ast.Not):
+            neg, x = True, x.operand
+        if isinstance(x, ast.Call) and isinstance(x.func, ast.Name) and x.func.id in ("any", "all") and len(x.args) == 1 \
+                and isinstance(x.args[0], ast.GeneratorExp) and len(x.args[0].generators) == 1 and not x.args[0].generators[0].ifs:
+            g = x.args[0]
+            xs, ys = self.zipcall(g.generators[0].iter)
+            is_all = x.func.id == "all"
+            cond = ast.UnaryOp(op=ast.Not(), operand=g.elt) if is_all else g.elt
+            pred = self.pair_pred(g.generators[0].target, cond)
+            # any: found -> True; all: found a counterexample -> False
+            found, none = ("true", "false") if not is_all else ("false", "true")
+            if neg:
+                found, none = none, found
+            return (f"(match zipStrictFind {pred} {xs} {ys} with\n      | .error u => .error u\n      | .ok true => .ok {found}"
+                    f"\n      | .ok false => .ok {none})")
+        if isinstance(e, ast.BoolOp) and isinstance(e.op, ast.And) and len(e.values) >= 2:
+            # `cheap and cheap and <zip part>`: short-circuit
+            head = ast.BoolOp(op=ast.And(), values=e.values[:-1]) if len(e.values) > 2 else e.values[0]
+            try:
+                h = self.pure(head)
+            except Unsupported:
+                h = None
+            if h is not None:
+                return f"(if {h} then {self.result(e.values[-1])} else .ok false)"
+        return f".ok {self.pure(e)}"
+
+    def block(self, stmts, k) -> str:
+        if not stmts:
+            if k is None:
+                raise Unsupported("_eq_fn", "a path falls off the end of the function")
+            return k
+        s, rest = stmts[0], stmts[1:]
+        if isinstance(s, ast.Expr) and isinstance(s.value, ast.Constant) and isinstance(s.value.value, str):
+            return self.block(rest, k)
+        if isinstance(s, ast.Return):
+            if s.value is None:
+                self.bad(s, "bare return")
+            return self.result(s.value)
+        if isinstance(s, ast.If):
+            c = self.pure(s.test)
+            kk = self.block(rest, k) if (rest or k is not None) else None
+            a = self.block(s.body, kk)
+            b = self.block(s.orelse, kk) if s.orelse else kk
+            if b is None:
+                raise Unsupported("_eq_fn", "a path falls off the end of the function")
+            return f"(if {c} then {a}\n     else {b})"
+        if isinstance(s, ast.For):
+            if s.orelse or len(s.body) != 1 or not isinstance(s.body[0], ast.If) or s.body[0].orelse \
+                    or len(s.body[0].body) != 1 or not isinstance(s.body[0].body[0], ast.Return):
+                self.bad(s, "loop shape (expected `for a, b in zip(..): if c: return <const>`)")
+            xs, ys = self.zipcall(s.iter)
+            pred = self.pair_pred(s.target, s.body[0].test)
+            exit_ = self.result(s.body[0].body[0].value)
+            kk = self.block(rest, k)
+            return (f"(match zipStrictFind {pred} {xs} {ys} with\n      | .error u => .error u\n      | .ok true => {exit_}"
+                    f"\n      | .ok false => {kk})")
+        self.bad(s, "statement")
+
+
+def generate_eq(src: Path) -> str:
+    nd = K(src / "pyoak" / "node.py")
+    fn = nd.funcs.get("_eq_fn")
+    if fn is None:
+        raise Unsupported("_eq_fn", "function not found")
+    t = EqFn(fn)
+    ps = [a.arg for a in fn.args.args]
+    body = t.block(fn.body, None)
+    return (HEADER_EQ + "\n/-- `_eq_fn` (src/pyoak/node.py): `a == b` -/\n"
+            "def eq_fn {N O : Type} [BEq O] (same_class : N → N → Bool) (content_id : N → List Char) (origin : N → O)\n"
+            f"    (dfs : N → List N) ({ps[0]} {ps[1]} : N) : Except Unit Bool :=\n  {body}\n\nend PyOak.GenK\n")
+
+
 def write_if_changed(src: Path, dest: Path) -> tuple[bool, str]:
     text = generate(src)
     if dest.exists() and dest.read_text() == text:
@@ -565,3 +741,4 @@ if __name__ == "__main__":
     root = Path(sys.argv[1] if len(sys.argv) > 1 else "/repo/src")
     print(generate(root))
     print(generate_xpath(root))
+    print(generate_eq(root))
